@@ -51,9 +51,28 @@ func callsWhere(pred func(cc *ssa.CallCommon) bool) func(ssa.Instruction) bool {
 
 var anchorPreds = map[string]anchorPred{
 	"client/setec:(*Store).poll": func(p *eng.Prog, f *ssa.Function) bool {
-		return recvIs(f, setecPkg, "Store") && hasInstr(f, false, callsWhere(func(cc *ssa.CallCommon) bool {
-			return isStoreClientInvoke(cc) && cc.Method.Name() == "GetIfChanged"
-		}))
+		// the function looping over a snapshot of the active set and asking the
+		// service about each name (itself or through a helper)
+		if !recvIs(f, setecPkg, "Store") {
+			return false
+		}
+		loops := false
+		for _, l := range mapLoops(f) {
+			if call, _ := eng.TupleCall(l.Range.X); call != nil {
+				if cal := eng.Callee(&call.Call); cal != nil && returnsSnapshot(p, cal) {
+					loops = true
+				}
+			}
+		}
+		if !loops {
+			return false
+		}
+		for _, in := range allCalls(f) {
+			if call, ok := in.(*ssa.Call); ok && isFetchCall(p, call) {
+				return true
+			}
+		}
+		return false
 	},
 	"client/setec:StoreConfig.secretNames": func(p *eng.Prog, f *ssa.Function) bool {
 		return recvIs(f, setecPkg, "StoreConfig") && f.Signature.Results().Len() == 3 && resultIs(f, 0, func(t types.Type) bool {
